@@ -165,6 +165,16 @@ pub const NUMERIC_BOUNDARY: &[&str] = &[
 ];
 
 pub fn numeric_in_context(lit: &str, r: &mut Rng) -> (String, &'static str) {
+    // a literal directly followed by a character whose low byte aliases a significant ASCII one
+    if r.chance(1, 12) {
+        let l = soup::lookalikes();
+        let a = &l[r.below(l.len())];
+        return match r.below(3) {
+            0 => (format!("x = {lit}{a};"), "open"),
+            1 => (format!("%sysevalf({lit}{a})"), "float-eval"),
+            _ => (format!("{lit}{a} {lit}"), "open"),
+        };
+    }
     match r.below(8) {
         0 | 1 => (format!("x = {lit};"), "open"),
         2 => (format!("{lit}"), "open"),
@@ -232,18 +242,25 @@ pub fn nesting_case(r: &mut Rng) -> String {
 /// Deep call nesting (beyond 8-bit / initial-capacity thresholds of the mode stack) around a
 /// small speculative / string / error case.
 pub fn deep_call_case(r: &mut Rng) -> String {
-    let k = r.pick(&[6usize, 13, 41, 52, 60, 100, 300]);
-    let open = r.pick(&["%a(", "%a(x,", "%a(b=", "%eval((", "%str(("]);
-    let inner = match r.below(5) {
+    let k = r.pick(&[6usize, 13, 20, 21, 41, 52, 60, 100, 300]);
+    let open = r.pick(&["%a(", "%a(x,", "%a(b=", "%eval((", "%str((", "%eval(", "%sysevalf(", "%scan(a,", "%sysfunc(f(", "%substr(a,", "%upcase(", "\"%a("]);
+    let prefix = r.pick(&["", "", "%if ", "%do i=1 %to ", "x = ", "%let a=", "%put "]);
+    let inner = match r.below(7) {
+        5 => r.pick(&["1 %then %put x;", "%let a=1;", "1 %to 2;", "a %then", " %do;", "1 %by 2; x", "%end;"]).to_string(),
+        6 => r.pick(&["1", "a", "", " ", "&v", "'s'"]).to_string(),
         0 => speculation_case(r),
         1 => literal_case(r),
         2 => format!("\"{}\"", r.pick(&["%b ", "&x ", "%b(1) ", "a \"\"b", "%b /*c*/ "])),
         3 => r.pick(&["%b ", "%b x", "x y", "%let a b;", "'q'", "%b /*c*/ y", ""]).to_string(),
         _ => nesting_case(r),
     };
-    let close = if open.ends_with("((") { "))" } else { ")" };
-    let closers = if r.chance(4, 5) { k } else { r.below(k + 1) };
-    format!("{}{}{};", open.repeat(k), inner, close.repeat(closers))
+    let close = if open.ends_with("((") || open.ends_with("f(") { "))" } else if open.starts_with('"') { ")\"" } else { ")" };
+    let closers = match r.below(5) {
+        0 => 0,
+        1 => r.below(k + 1),
+        _ => k,
+    };
+    format!("{}{}{}{};", prefix, open.repeat(k), inner, close.repeat(closers))
 }
 
 /// A source that raises very many diagnostics before a recoverable missing symbol.
